@@ -32,6 +32,7 @@ const (
 	zone     = "z.example."
 	keyName  = "axfr."
 	keyOther = "other."
+	keySecond = "second." // the receiver holds secret2 under this name
 	secret   = "so6ZGir4GPAqINNh9U5c3A=="
 	secret2  = "c2VjcmV0LW51bWJlci10d28="
 )
@@ -96,6 +97,12 @@ type sigSpec struct {
 	Tag    int  `json:"tag"`
 	Tamper bool `json:"tamper,omitempty"`
 	TimeOK bool `json:"time_ok"`
+	// Ref: signed by the harness's own RFC 8945 signer (wire.go) instead of dns.TsigGenerate
+	Ref bool `json:"ref,omitempty"`
+	// Orig: the sender signs the message under this ID (TSIG Original ID, the ID the
+	// MAC covers) and the header then carries readSpec.Id: a valid MAC over an
+	// Original ID that is not the header ID (RFC 8945 4.2)
+	Orig *uint16 `json:"orig_id,omitempty"`
 }
 type readSpec struct {
 	Fail  bool     `json:"fail,omitempty"`   // a frame cut after Keep octets, then the connection ends
@@ -104,6 +111,8 @@ type readSpec struct {
 	Rcode int      `json:"rcode,omitempty"`
 	RRs   []rrd    `json:"rrs,omitempty"`
 	Sig   *sigSpec `json:"sig,omitempty"`
+	// Muts: edits of the packed (and signed) envelope on its way to the receiver
+	Muts []mutSpec `json:"muts,omitempty"`
 }
 type xcase struct {
 	Kind    string     `json:"kind"` // axfr | ixfr
@@ -115,6 +124,7 @@ type xcase struct {
 	Chunk   int        `json:"chunk"`   // the scripted conn returns at most this many octets per Read
 	Stall   bool       `json:"stall"`   // at the end of the script reads time out instead of EOF
 	Family  string     `json:"family"`
+	Alg     string     `json:"alg,omitempty"` // HMAC algorithm of query and envelopes ("" = hmac-sha256.)
 }
 
 func (c xcase) m0tag() int {
@@ -134,12 +144,50 @@ func (r readSpec) arg() string {
 	if r.Fail {
 		return "x"
 	}
+	// what the receiver gets: header ID and RCODE after the edits; the MAC is
+	// no longer the one computed over the envelope when an edit touched
+	// anything the digest covers
+	id, rcode := r.Id, r.Rcode
+	tamper, key := false, -1
+	for _, m := range r.Muts {
+		switch m.Kind {
+		case mHdrID:
+			id ^= uint16(m.N)
+		case mHdrIDOrig:
+			id ^= uint16(m.N)
+			tamper = true
+		case mHdrRcode:
+			rcode = m.N & 0xf
+			tamper = true
+		case mKeyUnknown:
+			key = 2
+		case mKeySecond:
+			key = 1
+		default:
+			tamper = true
+		}
+	}
 	sg := "n"
 	if r.Sig != nil {
 		s := r.Sig
-		sg = fmt.Sprintf("%d.%d.%s.%d.%s.%s", s.Key, s.Prev, b2s(s.To), s.Tag, b2s(s.Tamper), b2s(s.TimeOK))
+		if key < 0 {
+			key = s.Key
+		}
+		sg = fmt.Sprintf("%d.%d.%s.%d.%s.%s", key, s.Prev, b2s(s.To), s.Tag, b2s(s.Tamper || tamper), b2s(s.TimeOK))
 	}
-	return fmt.Sprintf("%d:%d:%s:%s", r.Id, r.Rcode, sg, showRrds(r.RRs))
+	return fmt.Sprintf("%d:%d:%s:%s", id, rcode, sg, showRrds(r.RRs))
+}
+
+// modelled: every edit of every read is one the model describes
+func (c xcase) modelled() bool {
+	for _, r := range c.Reads {
+		for _, m := range r.Muts {
+			if !m.modelled() {
+				return false
+			}
+		}
+	}
+	return true
 }
 func (c xcase) args() []string {
 	a := []string{b2s(c.Tsig), Itoa(int(c.Qid)), fmt.Sprint(c.Qser), Itoa(c.m0tag())}
@@ -250,6 +298,9 @@ func question(kind string) dns.Question {
 func buildFrame(c xcase, r readSpec, macs map[int]string, now int64) []byte {
 	m := new(dns.Msg)
 	m.Id = r.Id
+	if r.Sig != nil && r.Sig.Orig != nil {
+		m.Id = *r.Sig.Orig
+	}
 	m.Response = true
 	m.Authoritative = true
 	m.Rcode = r.Rcode
@@ -262,6 +313,8 @@ func buildFrame(c xcase, r readSpec, macs map[int]string, now int64) []byte {
 		panic(err)
 	}
 	out := plain
+	tsigAt := -1
+	var prevMAC []byte
 	if r.Sig != nil {
 		s := r.Sig
 		name, sec := keyName, secret
@@ -275,22 +328,40 @@ func buildFrame(c xcase, r readSpec, macs map[int]string, now int64) []byte {
 		if !s.TimeOK {
 			ts = now - 4000
 		}
-		m.SetTsig(name, dns.HmacSHA256, 300, ts)
 		prev, ok := macs[s.Prev]
 		if !ok {
 			panic(fmt.Sprintf("unknown prev tag %d", s.Prev))
 		}
-		b, mac, err := dns.TsigGenerate(m, sec, prev, s.To)
-		if err != nil {
-			panic(err)
+		prevMAC = Unhx(prev)
+		var b []byte
+		var mac string
+		if s.Ref {
+			b, mac = refSign(plain, name, c.Alg, sec, uint64(ts), 300, prev, s.To)
+		} else {
+			m.SetTsig(name, algOf(c.Alg).name, 300, ts)
+			b, mac, err = dns.TsigGenerate(m, sec, prev, s.To)
+			if err != nil {
+				panic(err)
+			}
 		}
 		if _, dup := macs[s.Tag]; !dup {
 			macs[s.Tag] = mac
 		}
 		out = b
+		tsigAt = len(plain)
+		if s.Orig != nil {
+			out = clone(b)
+			out[0], out[1] = byte(r.Id>>8), byte(r.Id)
+		}
 		if s.Tamper {
-			out = append([]byte(nil), b...)
+			out = clone(out)
 			out[len(plain)-1] ^= 1 // last octet before the TSIG RR: rdata of the last answer (or the question class)
+		}
+	}
+	for _, mu := range r.Muts {
+		out = applyMut(out, tsigAt, mu, prevMAC)
+		if mu.positional() {
+			tsigAt = -1 // the TSIG record is no longer the tail of the message: no further edit of its fields
 		}
 	}
 	f := make([]byte, 2+len(out))
@@ -410,7 +481,7 @@ func mkQuery(c xcase) *dns.Msg {
 	}
 	q.Id = c.Qid
 	if c.Tsig && c.QSigned {
-		q.SetTsig(keyName, dns.HmacSHA256, 300, time.Now().Unix())
+		q.SetTsig(keyName, algOf(c.Alg).name, 300, time.Now().Unix())
 	}
 	return q
 }
@@ -440,7 +511,7 @@ func runScripted(c xcase) obs {
 	sc.script = func(q []byte) ([]byte, []int) { return buildStream(c, q) }
 	t := &dns.Transfer{Conn: &dns.Conn{Conn: sc}}
 	if c.Tsig {
-		t.TsigSecret = map[string]string{keyName: secret}
+		t.TsigSecret = map[string]string{keyName: secret, keySecond: secret2}
 	}
 	ch, err := t.In(mkQuery(c), "scripted")
 	if err != nil {
@@ -606,6 +677,18 @@ func goodReads(c xcase, envs [][]rrd, signed bool) []readSpec {
 		rs = append(rs, r)
 	}
 	return rs
+}
+
+func posClass(k, n int) string {
+	switch {
+	case n == 1:
+		return "only"
+	case k == 0:
+		return "first"
+	case k == n-1:
+		return "last"
+	}
+	return "middle"
 }
 
 func axfrStream(serial uint32, body int) []rrd {
@@ -888,6 +971,230 @@ func runC15(r *Rng, tier string, n int) {
 		runOne(c, &expect{deliver: 0, then: "error", key: kErr, why: "NOTAUTH answer"}, true)
 	}
 
+	// ---- D2. TSIG configured: what can be done to a signed envelope on the path
+	// without the key, at every envelope of every composition.  Every edit of
+	// anything the RFC 8945 digest covers (and every removal / displacement of
+	// the TSIG record) must end the transfer with an error at that envelope.
+	macLens := func(full int) []int {
+		var out []int
+		seen := map[int]bool{}
+		for _, l := range []int{0, 1, 2, 9, 10, 11, full/2 - 1, full / 2, full/2 + 1, full - 2, full - 1} {
+			if l >= 0 && l < full && !seen[l] {
+				seen[l] = true
+				out = append(out, l)
+			}
+		}
+		return out
+	}
+	pathMuts := func(full int) []mutSpec {
+		ms := []mutSpec{{mMacBit, 0}, {mMacBit, 7}, {mMacBit, full*8 - 1}, {mMacBit, 8 + r.Intn(full*8-16)},
+			{mMacExtend, 1}, {mMacExtend, full}, {mMacZero, 0}, {mMacPrev, 0},
+			{mOrigID, 1}, {mOrigID, 0x100}, {mOrigID, 0xffff},
+			{mTime, 1}, {mTime, -1}, {mTime, 301}, {mTime, -301}, {mTime, 1 << 32},
+			{mFudge, 1}, {mFudge, -1}, {mFudge, 30000},
+			{mKeyUnknown, 0}, {mKeySecond, 0}, {mAlgOther, 0}, {mAlgUnknown, 0},
+			{mStrip, 0}, {mStripCount, 0}, {mRRAfter, 0}, {mRRBefore, 0}, {mTsigTwice, 0}, {mTsigAnswer, 0},
+			{mError, 16}, {mError, 17}, {mError, 18}, {mOther, 6}, {mClass, 0}, {mTTL, 1}}
+		for _, l := range macLens(full) {
+			ms = append(ms, mutSpec{mMacTrunc, l})
+		}
+		return ms
+	}
+	withMuts := func(rs []readSpec, k int, ms ...mutSpec) []readSpec {
+		rs[k].Muts = append([]mutSpec(nil), ms...)
+		return rs
+	}
+	refSigned := func(rs []readSpec, ref bool) []readSpec {
+		for i := range rs {
+			if rs[i].Sig != nil {
+				rs[i].Sig.Ref = ref
+			}
+		}
+		return rs
+	}
+	runMut := func(kind string, envs [][]rrd, k int, mu mutSpec, alg string, ref bool, emitIt bool) {
+		c := base(kind, true, "tsigmut-"+mu.Kind, r)
+		c.Alg = alg
+		c.Reads = withMuts(refSigned(goodReads(c, envs, true), ref), k, mu)
+		c.Reads = append(c.Reads, readSpec{Id: c.Qid, RRs: []rrd{A(99)}})
+		var ex *expect
+		if k == 0 || !mu.fullFormOnly() {
+			key := kTsig + "/" + mu.Kind
+			if full := algOf(alg).size; mu.Kind == mMacTrunc && (mu.N < 10 || mu.N < full/2) {
+				// shorter than anything RFC 8945 5.2.2.1 lets a receiver accept
+				key += "-below-rfc-minimum"
+			}
+			ex = &expect{deliver: k, then: "error", key: key,
+				why: "TSIG configured: envelope " + Itoa(k) + " was changed after it was signed (" + mu.String() + "), it cannot verify against the running MAC chain and the transfer must end there with an error"}
+		} else {
+			// RFC 8945 5.3.1: not part of what the MAC of a later envelope covers
+			st["tsigmut_outside_timers_only_digest"]++
+		}
+		o := runOne(c, ex, emitIt && ex != nil && mu.modelled())
+		st["tsigmut_pos_"+posClass(k, len(envs))]++
+		if ex != nil && len(o.errs) == k+1 {
+			st["tsigmut_error_was_"+o.errs[k]]++
+		}
+	}
+	for si, fs := range tsigStreams {
+		for ci, envs := range compositions(fs.stream) {
+			if !thorough && len(envs) > 4 && ci%2 == 1 {
+				continue
+			}
+			for k := 0; k < len(envs); k++ {
+				for mi, mu := range pathMuts(32) {
+					runMut(fs.kind, envs, k, mu, "", (ci+mi)%2 == 0, si == 0 || (ci+k+mi)%4 == 0)
+				}
+			}
+		}
+	}
+	// the MAC cut to every length below the full one, for every HMAC algorithm
+	for ai, a := range algTable {
+		streams := []fstream{{"axfr", axfrStream(5, 1)}}
+		if ai == 0 || thorough {
+			streams = append(streams, fstream{"ixfr", ixfrStream(5, []diffd{{3, 5, 0, 0}})})
+		}
+		for _, fs := range streams {
+			for ci, envs := range compositions(fs.stream) {
+				for k := 0; k < len(envs); k++ {
+					for l := 0; l < a.size; l++ {
+						runMut(fs.kind, envs, k, mutSpec{mMacTrunc, l}, a.name, (ci+l)%2 == 1, l%4 == 0 || l == a.size-1)
+					}
+				}
+			}
+		}
+	}
+	// the library quirk fudge 0 = 300 (tsigBuffer replaces a zero fudge on the
+	// verifying side too): recorded, no verdict
+	for _, envs := range compositions(axfrStream(5, 1)) {
+		for k := 0; k < len(envs); k++ {
+			c := base("axfr", true, "tsigmut-fudge-zero", r)
+			c.Reads = withMuts(goodReads(c, envs, true), k, mutSpec{mFudgeZero, 0})
+			o := runOne(c, nil, false)
+			if len(o.errs) > k && o.errs[k] == "-" {
+				st["deviation_fudge_zero_accepted_as_300"]++
+			}
+		}
+	}
+	// honest chains from the harness's own signer, every algorithm: exact
+	for _, a := range algTable {
+		for _, fs := range []fstream{{"axfr", axfrStream(5, 2)}, {"ixfr", ixfrStream(5, []diffd{{3, 5, 1, 0}})}} {
+			for _, envs := range compositions(fs.stream) {
+				c := base(fs.kind, true, "tsig-ref-signed", r)
+				c.Alg = a.name
+				c.Reads = refSigned(goodReads(c, envs, true), true)
+				c.Reads = append(c.Reads, readSpec{Id: c.Qid, RRs: []rrd{A(99)}})
+				runOne(c, &expect{deliver: len(envs), then: "done", key: kExact, why: "TSIG configured, envelopes signed as RFC 8945 4.3 / 5.3.1 prescribe (" + a.name + "): the transfer must deliver exactly the transmitted envelopes"}, a.name == dns.HmacSHA256)
+			}
+		}
+	}
+	// TSIG not configured: a TSIG record on an envelope is not looked at,
+	// whatever state it is in
+	for _, envs := range compositions(axfrStream(5, 1)) {
+		for k := 0; k < len(envs); k++ {
+			for _, mu := range []mutSpec{{mMacTrunc, 0}, {mMacBit, 3}, {mOrigID, 0x101}, {mKeyUnknown, 0}, {mAlgUnknown, 0}, {mTime, -100000}, {mRRAfter, 0}, {mTsigTwice, 0}} {
+				c := base("axfr", false, "tsig-off-edited-tsig", r)
+				c.Reads = withMuts(goodReads(c, envs, true), k, mu)
+				c.Reads = append(c.Reads, readSpec{Id: c.Qid, RRs: []rrd{A(99)}})
+				runOne(c, &expect{deliver: len(envs), then: "done", key: kExact, why: "AXFR without TSIG configured: header ID, RCODE and records are in order, the transfer must be delivered"}, mu.modelled())
+			}
+		}
+	}
+
+	// ---- D3. the ID of every envelope is the ID in its header: a header ID
+	// that differs from the query's in any octet must be reported, whatever a
+	// TSIG record on the envelope says and whether or not the receiver has a key
+	idMasks := []int{0x0001, 0x0080, 0x0100, 0x8000, 0xffff}
+	type idVariant struct {
+		name   string
+		tsig   bool // receiver has the key
+		signed bool // envelopes carry TSIG records
+		masks  int  // how many of idMasks
+		f      func(c xcase, rs []readSpec, k int, mask int)
+	}
+	third := func(c xcase) *uint16 { v := c.Qid ^ 0x0ff0; return &v }
+	idVariants := []idVariant{
+		{"off/no-tsig-rr", false, false, 5, func(c xcase, rs []readSpec, k, mask int) { withMuts(rs, k, mutSpec{mHdrID, mask}) }},
+		{"off/tsig-rr-origid-is-query-id-empty-mac", false, true, 5, func(c xcase, rs []readSpec, k, mask int) {
+			withMuts(rs, k, mutSpec{mHdrID, mask}, mutSpec{mMacTrunc, 0})
+		}},
+		{"off/tsig-rr-origid-is-query-id-valid-mac", false, true, 2, func(c xcase, rs []readSpec, k, mask int) { withMuts(rs, k, mutSpec{mHdrID, mask}) }},
+		{"off/tsig-rr-origid-is-header-id", false, true, 2, func(c xcase, rs []readSpec, k, mask int) { withMuts(rs, k, mutSpec{mHdrIDOrig, mask}) }},
+		{"off/tsig-rr-origid-is-neither", false, true, 2, func(c xcase, rs []readSpec, k, mask int) {
+			rs[k].Id ^= uint16(mask)
+			rs[k].Sig.Orig = third(c)
+		}},
+		{"on/header-rewritten-mac-valid", true, true, 5, func(c xcase, rs []readSpec, k, mask int) { withMuts(rs, k, mutSpec{mHdrID, mask}) }},
+		{"on/signed-under-wrong-id", true, true, 2, func(c xcase, rs []readSpec, k, mask int) { rs[k].Id ^= uint16(mask) }},
+		{"on/origid-is-neither-mac-valid", true, true, 2, func(c xcase, rs []readSpec, k, mask int) {
+			rs[k].Id ^= uint16(mask)
+			rs[k].Sig.Orig = third(c)
+		}},
+		{"on/header-rewritten-empty-mac", true, true, 2, func(c xcase, rs []readSpec, k, mask int) {
+			withMuts(rs, k, mutSpec{mHdrID, mask}, mutSpec{mMacTrunc, 0})
+		}},
+		{"on/header-and-origid-rewritten", true, true, 2, func(c xcase, rs []readSpec, k, mask int) { withMuts(rs, k, mutSpec{mHdrIDOrig, mask}) }},
+		{"on/header-rewritten-tsig-removed", true, true, 1, func(c xcase, rs []readSpec, k, mask int) {
+			withMuts(rs, k, mutSpec{mHdrID, mask}, mutSpec{mStrip, 0})
+		}},
+	}
+	for _, fs := range fstreams {
+		for ci, envs := range compositions(fs.stream) {
+			for k := 0; k < len(envs); k++ {
+				for vi, v := range idVariants {
+					for mi := 0; mi < v.masks; mi++ {
+						c := base(fs.kind, v.tsig, "hdr-id", r)
+						c.Reads = refSigned(goodReads(c, envs, v.signed), (ci+mi)%2 == 0)
+						v.f(c, c.Reads, k, idMasks[mi])
+						runOne(c, &expect{deliver: k, then: "error", key: "C15/id-not-checked/" + v.name,
+							why: fmt.Sprintf("the header ID of envelope %d differs from the query ID (mask %#04x, %s): the transfer must end there with an error", k, idMasks[mi], v.name)},
+							c.modelled() && (ci+k+vi+mi)%2 == 0)
+						st["hdr_id_"+v.name]++
+						st["hdr_id_pos_"+posClass(k, len(envs))]++
+					}
+				}
+				// header ID is the query's, the Original ID of a TSIG record is not
+				for _, tsig := range []bool{false, true} {
+					c := base(fs.kind, tsig, "hdr-id-ok-origid-differs", r)
+					c.Reads = goodReads(c, envs, true)
+					c.Reads[k].Sig.Orig = third(c)
+					var ex *expect
+					if !tsig {
+						// no key: the TSIG record is one more record of the additional section
+						ex = &expect{deliver: len(envs), then: "done", key: kExact, why: "transfer without TSIG configured, every envelope has the query's ID in its header: it must be delivered"}
+					}
+					runOne(c, ex, false)
+				}
+			}
+		}
+	}
+
+	// ---- D4. every non-zero RCODE at every envelope, sent that way or set on the path
+	for _, fs := range []fstream{{"axfr", axfrStream(5, 1)}, {"ixfr", ixfrStream(5, []diffd{{3, 5, 0, 0}})}} {
+		for ci, envs := range compositions(fs.stream) {
+			for k := 0; k < len(envs); k++ {
+				for rc := 1; rc <= 15; rc++ {
+					for vi, v := range []struct {
+						name         string
+						tsig, signed bool
+						inflight     bool
+					}{{"off/sent", false, false, false}, {"on/sent-signed", true, true, false}, {"on/set-on-path", true, true, true}, {"off/tsig-rr-set-on-path", false, true, true}} {
+						c := base(fs.kind, v.tsig, "hdr-rcode", r)
+						c.Reads = refSigned(goodReads(c, envs, v.signed), (ci+rc)%2 == 0)
+						if v.inflight {
+							withMuts(c.Reads, k, mutSpec{mHdrRcode, rc})
+						} else {
+							c.Reads[k].Rcode = rc
+						}
+						runOne(c, &expect{deliver: k, then: "error", key: "C15/rcode-not-reported/" + v.name,
+							why: fmt.Sprintf("envelope %d has RCODE %d (%s): the transfer must end there with an error", k, rc, v.name)}, (ci+k+rc+vi)%3 == 0)
+						st["hdr_rcode_"+v.name]++
+					}
+				}
+			}
+		}
+	}
+
 	// ---- E. malformed senders and deviations (model cases; expectations only where the property text is clear)
 	// records after the closing SOA in the same envelope, a foreign SOA in the middle, empty envelopes
 	odd := [][][]rrd{
@@ -982,7 +1289,10 @@ func runC15(r *Rng, tier string, n int) {
 				cut.Fail, cut.Keep = true, 1+r.Intn(30)
 				c.Reads = append(c.Reads[:k], cut)
 			case 3:
-				if c.Reads[k].Sig != nil {
+				// only when the receiver verifies: without a key the flipped bit
+				// (an address octet of the last answer) is delivered as sent and
+				// the case description would no longer name the records on the wire
+				if c.Reads[k].Sig != nil && c.Tsig {
 					c.Reads[k].Sig.Tamper = true
 				}
 			}
